@@ -519,6 +519,9 @@ def get_matching_region_pragmas(pragmas):
         if not start.keyword.lower() == p.keyword.lower():
             return False
         idx = ptok.index('end')
+        if idx + 1 >= len(ptok) or idx >= len(stok):
+            # Nothing follows `end`, or the candidate start pragma is too short to match
+            return False
         return ptok[idx+1] == stok[idx]
 
     matches = []
